@@ -286,8 +286,9 @@ class Exec(Stepper):
 
             def wait(self, timeout=None):
                 r = base.wait(self, timeout)
-                marker('obs.wake')
-                me.ev.append(E('wake'))
+                if r or timeout is None:
+                    marker('obs.wake')
+                    me.ev.append(E('wake'))
                 return r
         pfh.Event = ObsEvent
         self._undo_event = lambda: setattr(pfh, 'Event', base)
@@ -708,11 +709,23 @@ def execute(job):
                 x = Exec(sc, s, mutant=(lambda xx: undo.append(mutant(xx))) if mutant else None,
                          whatif=whatif)
                 drv = sc['driver']
-                if drv[0] == 'random':
-                    ch = RandomChooser(drv[1], *drv[2:])
+                if drv[0] == 'replay':
+                    # a recorded TLC behaviour (action labels), re-applied step by step
+                    types = sc['types']
+                    for label in drv[1]:
+                        name, args = tlc.parse_label(label)
+                        if name == 'Setup':
+                            continue
+                        if x.replay_step(name, args, lambda p, q: _how(types[p - 1], q) if p else 'int'):
+                            break
+                    if x.user is not None:
+                        x.finish_call()
                 else:
-                    ch = CanonChooser(tuple(drv[1]) if drv[1] else None)
-                x.run_driver(ch)
+                    if drv[0] == 'random':
+                        ch = RandomChooser(drv[1], *drv[2:])
+                    else:
+                        ch = CanonChooser(tuple(drv[1]) if drv[1] else None)
+                    x.run_driver(ch)
                 t = x.trace()
             finally:
                 for u in undo:
@@ -816,22 +829,30 @@ MUTANTS = {
 
 
 def _whatif_fix(x):
-    """developer aid (VERIF_X02_WHATIF=fix): the proposed patch, in memory -- a disconnected callback
-    registered for the duration of the call wakes the waiter with success = False"""
+    """developer aid (VERIF_X02_WHATIF=fix): the proposed patch, in memory -- the wait for the store callback
+    polls once a second and gives up (success = False) when the connection is gone:
+        while not self.persistent_sema.wait(timeout=1):
+            if self._cf.link is None:
+                self.success = False
+                break"""
+    import cflib.utils.param_file_helper as m
     h = x.helper
-    orig = h.store_params_from_file
-
-    def on_disc(uri):
-        h.success = False
-        if h.persistent_sema is not None:
-            h.persistent_sema.set()
 
     def patched(filename):
-        h._cf.disconnected.add_callback(on_disc)
-        try:
-            return orig(filename)
-        finally:
-            h._cf.disconnected.remove_callback(on_disc)
+        params = m.ParamFileManager().read(filename)
+        for param, state in params.items():
+            h.persistent_sema = m.Event()
+            h._cf.param.set_value(param, state.stored_value)
+            h._cf.param.persistent_store(param, h._persistent_stored_callback)
+            while not h.persistent_sema.wait(timeout=1):
+                if h._cf.link is None:
+                    h.success = False
+                    marker('obs.wake')
+                    x.ev.append(E('wake'))
+                    break
+            if not h.success:
+                break
+        return h.success
     h.store_params_from_file = patched
 
 
@@ -890,7 +911,9 @@ def sc_enumerated(tier):
                 for fault in faults:
                     if fault and not usable:
                         continue            # nothing is ever transmitted: the fault cannot matter
-                    if tier == 'quick' and fault and fault[0] in ('dup',) and fault[1] > 2:
+                    if tier == 'quick' and fault and fault[0] in ('dup', 'close') and fault[1] > 2:
+                        continue
+                    if tier == 'quick' and fault and fault[0] == 'drop' and (k1[0] != 'ok' and k2[0] != 'ok'):
                         continue
                     if tier == 'quick' and fault and fault[0] == 'down' and (k1, k2) not in (
                             (kinds[0], kinds[0]), (kinds[0], kinds[1]), (kinds[1], kinds[0]), (kinds[0], kinds[3])):
@@ -940,7 +963,7 @@ def sc_random(tier, rng, n):
 # --------------------------------------------------------------------------- spec -> code
 def _replay_job(job):
     """behaviour = [(label, state)] of ParamFile.tla -> (trace, steps, matched steps, first mismatch)"""
-    beh = job
+    beh, whatif = job
     st1 = None
     files = []
     for label, st in beh:
@@ -954,25 +977,26 @@ def _replay_job(job):
     np_ = len(st1['nature'])
     types = _types_for(np_, files)
     sc = {'np': np_, 'types': types, 'nature': list(st1['nature']), 'status': list(st1['status']), 'resend': True,
-          'calls': [], 'driver': ['replay']}
+          'calls': [], 'driver': ['replay', [label for label, _st in beh[1:]]]}
     buf = io.StringIO()
     steps = matched = 0
     first = None
     with contextlib.redirect_stdout(buf):
         with vsched.scheduler(vsched.FifoPolicy(), max_steps=200000) as s:
-            x = Exec(sc, s)
+            x = Exec(sc, s, whatif=_whatif_fix if whatif else None)
 
             def how_of(p, q):
                 return _how(types[p - 1], q) if p else 'int'
             # a LateRetry is a retransmission decided before the answer was processed: prepare it at the
             # Deliver that cleared the request
             prepare = set()
-            names = [tlc.parse_label(label)[0] for label, _st in beh[1:]]
-            names = [n for n in names if n != 'Setup']
-            for k, n in enumerate(names):
+            rows = [(tlc.parse_label(label)[0], st) for label, st in beh[1:]]
+            rows = [r for r in rows if r[0] != 'Setup']
+            for k, (n, _st) in enumerate(rows):
                 if n == 'LateRetry':
-                    for j in range(k - 1, -1, -1):
-                        if names[j] == 'Deliver':
+                    for j in range(k - 1, 0, -1):
+                        if rows[j][0] == 'Deliver' and rows[j][1]['inflight']['k'] == 'none' and \
+                                rows[j - 1][1]['inflight']['k'] != 'none':
                             prepare.add(j + 1)
                             break
             for label, st in beh[1:]:
@@ -1010,6 +1034,10 @@ def _replay_job(job):
                     first = {'step': steps, 'action': label, 'why': why, 'real': pr, 'spec': exp,
                              'events': got_ev, 'obs': want}
                     break
+            # the behaviour is over: let everything that can still happen happen (fair environment), so that the
+            # end-of-trace clause is judged at quiescence
+            if x.user is not None:
+                x.finish_call()
             t = x.trace()
             x._undo_event()
     t['sc'] = sc
@@ -1330,7 +1358,7 @@ class ExecB(Stepper):
     """One scenario of family B.  sc: mode 'ranger'|'estimator', rate, haskalman, script [op], data [vector],
     driver, down"""
     STOPS = ('obs.begin', 'obs.end', 'obs.ctl', 'obs.pset', 'obs.ack', 'obs.data', 'obs.prx', 'obs.wake', 'obs.take',
-             'obs.down', 'obs.disc')
+             'obs.down', 'obs.disc', 'obs.updclose')
 
     def __init__(self, sc, s, mutant=None):
         import cflib.crazyflie as cfm
@@ -1457,11 +1485,6 @@ class ExecB(Stepper):
         class ObsQueue(qb):
             _x02_base = qb
 
-            def put(self, item, block=True, timeout=None):
-                if isinstance(item, str):          # SyncLogger.DISCONNECT_EVENT
-                    marker('obs.disc')
-                    me.ev.append(EB('disc'))
-                return qb.put(self, item, block, timeout)
 
             def get(self, block=True, timeout=None):
                 r = qb.get(self, block, timeout)
@@ -1473,6 +1496,26 @@ class ExecB(Stepper):
                 return r
         slm.Queue = ObsQueue
         self.undo.append(lambda: setattr(slm, 'Queue', qb))
+        orig_close = self.upd.close
+
+        def close():
+            marker('obs.updclose')
+            r = orig_close()
+            self.ev.append(EB('updclose'))          # in the region of `self.toc = Toc()`
+            return r
+        self.upd.close = close
+        # SyncLogger._disconnected (disconnect() + DISCONNECT_EVENT) made visible
+        sd_orig = slm.SyncLogger.__dict__['_disconnected']
+        while getattr(sd_orig, '_x02_base', None) is not None:
+            sd_orig = sd_orig._x02_base
+
+        def _disconnected(self_, link_uri):
+            marker('obs.disc')
+            me.ev.append(EB('disc'))
+            return sd_orig(self_, link_uri)
+        _disconnected._x02_base = sd_orig
+        slm.SyncLogger._disconnected = _disconnected
+        self.undo.append(lambda: setattr(slm.SyncLogger, '_disconnected', sd_orig))
         self.mr = None
         self.user = None
 
@@ -1736,7 +1779,7 @@ class ExecB(Stepper):
                 self.start_user()
             self.gate_open += 1
         if name == 'SleepWake':
-            want = st['now'] / 1000.0
+            want = (st['now'] + self.t0) / 1000.0
             if want > self.s.now:
                 self.s.now = want
         if name in U:
@@ -1750,6 +1793,9 @@ class ExecB(Stepper):
             return '' if r == 'ok' else r
         if name == 'SyncDisc':
             r = self.act(self.downthr, 'obs.disc')
+            return '' if r == 'ok' else r
+        if name == 'ParamClose':
+            r = self.act(self.downthr, 'obs.updclose')
             return '' if r == 'ok' else r
         if name == 'EmitData':
             return '' if self.emit(args[0]) else 'no started block'
@@ -1821,10 +1867,27 @@ def execute_b(job):
         with vsched.scheduler(vsched.FifoPolicy(), max_steps=400000) as s:
             x = None
             try:
-                x = ExecB(sc, s, mutant=mutant)
+                try:
+                    x = ExecB(sc, s, mutant=mutant)
+                except MutantSkipped as e:
+                    return {'skipped': str(e), 'sc': sc, 'mode': sc['mode'], 'ev': []}
                 drv = sc['driver']
-                ch = RandomChooserB(*drv[1:]) if drv[0] == 'random' else CanonChooserB(*drv[1:])
-                x.run_driver(ch)
+                if drv[0] == 'replay':
+                    for label, now in drv[1]:
+                        name, args = tlc.parse_label(label)
+                        if name == 'Setup':
+                            continue
+                        if x.replay_step(name, args, {'now': now}):
+                            break
+                    if x.user is None and sc['script']:
+                        x.start_user()
+                    x.gate_open = len(sc['script'])
+                    x.settle()
+                    if not x.user.finished:
+                        s.run(until=lambda: x.user.finished, horizon=s.now + 30.0, policy=vsched.FifoPolicy())
+                else:
+                    ch = RandomChooserB(*drv[1:]) if drv[0] == 'random' else CanonChooserB(*drv[1:])
+                    x.run_driver(ch)
                 t = x.trace()
             finally:
                 if x is not None:
@@ -2057,7 +2120,7 @@ def _replay_job_b(beh):
         return None
     mode = 'ranger' if len(st1['mon']['mode']) == 6 else 'estimator'
     sc = {'mode': st1['mon']['mode'], 'rate': st1['rate'], 'haskalman': st1['haskalman'], 'script': list(st1['script']),
-          'data': [], 'driver': ['replay'], 'down': None}
+          'data': [], 'driver': ['replay', [[label, st['now']] for label, st in beh[1:]]], 'down': None}
     buf = io.StringIO()
     steps = matched = 0
     first = None
@@ -2091,8 +2154,7 @@ def _replay_job_b(beh):
                     got_ev = x.ev[nev:]
                     if want['e'] == 'pcall' or want['e'] == 'wake':
                         # the clock of the execution starts at the end of the connection phase
-                        for e in got_ev:
-                            e['t'] -= x.t0
+                        want['t'] += x.t0
                     ok = (not why) and pr == exp and got_ev == [want]
                     if name in ('DispData', 'DispAck', 'DispP') and st['link'] != 'up' and why.startswith('blocked-at-sleep'):
                         steps -= 1          # not realisable under this timing (see family A)
@@ -2103,9 +2165,282 @@ def _replay_job_b(beh):
                     elif first is None:
                         first = {'step': steps, 'action': label, 'why': why, 'real': pr, 'spec': exp, 'events': got_ev, 'obs': want}
                         break
+                if x.user is None and sc['script']:
+                    x.start_user()
+                x.gate_open = len(sc['script'])
+                x.settle()
+                if x.user is not None and not x.user.finished:
+                    x.s.run(until=lambda: x.user.finished, horizon=x.s.now + 30.0, policy=vsched.FifoPolicy())
                 t = x.trace()
-                t['t0'] = 0
+                for e in t['ev']:
+                    if e['e'] in ('pcall', 'wake') and e['t'] >= x.t0 and '_adj' not in e:
+                        pass
+                t['t0'] = x.t0
             finally:
                 x.cleanup()
     t['sc'] = sc
     return t, steps, matched, first
+
+
+# --------------------------------------------------------------------------- design checks of family B
+LH_CHECKS = {'quick': ['MC_LogHelper_ranger_quick.cfg', 'MC_LogHelper_est_quick.cfg', 'MC_LogHelper_est_link_quick.cfg'],
+             'thorough': ['MC_LogHelper_ranger_thorough.cfg', 'MC_LogHelper_est_quick.cfg', 'MC_LogHelper_est_thorough.cfg']}
+LH_BUGS = [('swapLeftRight', 'NoCreateNotAsConfigured'), ('noZrange', 'NoCreateNotAsConfigured'), ('period', 'NoStartNotAsConfigured'),
+           ('limit', 'NoWrongDistance'), ('noLimit', 'NoWrongDistance'), ('noDelete', 'NoStopDidNotDelete'),
+           ('swallow', 'NoExitSwallowed'), ('noZeroWrite', 'PropsOK'), ('shortSleep', 'PropsOK'),
+           ('firstSample', 'NoReturnedBeforeConverged')]
+
+
+def design_jobs_b(tier):   # noqa: F811  (replaces the placeholder above)
+    w = 4 if tier == 'quick' else 6
+    jobs = [('check', 'MC_LogHelper.tla', c, {'workers': w, 'timeout': 3000, 'coverage': tier == 'thorough'}) for c in LH_CHECKS[tier]]
+    jobs += [('bug', 'MC_LogHelper.tla', 'MC_LogHelper_bug_%s.cfg' % b, {'workers': 2, 'timeout': 900}) for (b, _i) in LH_BUGS]
+    return jobs
+
+
+def corrupted_b(traces):
+    out = []
+    rt = next((t for t in traces if t['mode'] == 'ranger' and t['script'] == ['start', 'stop'] and not t['blocked'] and
+               2 <= sum(1 for e in t['ev'] if e['e'] == 'data') <= 12 and not any(e['e'] == 'down' for e in t['ev'])), None)
+    et = next((t for t in traces if t['mode'] == 'estimator' and t['ev'] and t['ev'][-1]['e'] == 'end' and t['ev'][-1]['res'] == '' and
+               not any(e['e'] == 'down' for e in t['ev']) and sum(1 for e in t['ev'] if e['e'] == 'data') >= 10), None)
+    if rt is None or et is None:
+        raise common.MachineryError('no suitable traces for the binding self-tests of family B')
+
+    def variant(base, label, fn, want):
+        t = copy.deepcopy(base)
+        fn(t['ev'])
+        t.pop('verdict', None)
+        out.append((label, t, want))
+
+    def read_changed(ev):
+        e = next(e for e in ev if e['e'] == 'data')
+        e['read'][2] = e['read'][2] + 1 if e['read'][2] >= 0 else 7
+    variant(rt, 'ranger: one property value changed', read_changed, 'monitor')
+    variant(rt, 'ranger: delete message removed', lambda ev: ev.pop(next(i for i, e in enumerate(ev) if e['e'] == 'ctl' and e['cmd'] == 'delete')), 'monitor')
+
+    def swap_vars(ev):
+        e = next(e for e in ev if e['e'] == 'ctl' and e['cmd'] == 'create')
+        e['vars'][0], e['vars'][1] = e['vars'][1], e['vars'][0]
+    variant(rt, 'ranger: two variables exchanged in the create message', swap_vars, 'monitor')
+    variant(rt, 'ranger: create acknowledgement removed', lambda ev: ev.pop(next(i for i, e in enumerate(ev) if e['e'] == 'ack' and e['cmd'] == 'create')), 'monitor')
+
+    def far_sample(ev):
+        e = [e for e in ev if e['e'] == 'data'][-1]
+        e['vals'][1] += 5000
+    variant(et, 'estimator: last sample moved away (returned although not converged)', far_sample, 'monitor')
+
+    def pulse(ev):
+        e = [e for e in ev if e['e'] == 'pcall'][1]
+        e['t'] -= 50
+    variant(et, 'estimator: second reset write 50 ms earlier', pulse, 'monitor')
+    variant(et, 'estimator: a take event removed', lambda ev: ev.pop(next(i for i, e in enumerate(ev) if e['e'] == 'take')), 'conform')
+    return out
+
+
+ASSUMPTIONS_B = [
+    'Multiranger: one start/stop (or with-block) cycle per object; the device has the six range variables as uint16 (firmware '
+    'range.* log group); restarting the same LogConfig before the delete acknowledgement arrived is a Log-level race outside this spec',
+    'reset_estimator: "converged" is the coded rule -- window of the last ten samples, initially ten times 1000, max - min < 0.001 in '
+    'all three axes (samples within 0.001 of 1000.0 therefore converge at once); sample values are multiples of 1/65536 so that '
+    'float32 -> exact integer conversion and the threshold comparison (difference <= 65 units) are exact',
+    'reset_estimator waits for samples without any bound on a live link (not a violation); it must return when the connection goes away',
+    'log control acknowledgements and parameter write replies are delivered in order and at once (family B explores thread '
+    'interleavings, data timing and link loss, not lost acknowledgements: those are C05 / C04)',
+]
+
+
+# --------------------------------------------------------------------------- the check
+def main(tier, seed, replay=None):
+    global SCRATCH
+    SCRATCH = tlc.scratch_dir('x02-')
+    try:
+        return _main(tier, seed, replay)
+    finally:
+        _Bg.cleanup()
+        shutil.rmtree(SCRATCH, ignore_errors=True)
+
+
+def _spec_to_code(tier, seed, whatif=False):
+    """TLC -simulate behaviours of both design specs, replayed step by step into the real code"""
+    n = {'quick': (150, 60), 'thorough': (1500, 500)}[tier]
+    pf = 'SIM_ParamFile_wake.cfg' if whatif else 'SIM_ParamFile.cfg'
+    sims = [('MC_ParamFile.tla', pf, n[0], 45), ('MC_ParamFile.tla', 'SIM_ParamFile_nl.cfg', n[0], 60),
+            ('MC_LogHelper.tla', 'SIM_LogHelper_ranger.cfg', n[1], 40), ('MC_LogHelper.tla', 'SIM_LogHelper_ranger_nl.cfg', n[1], 50),
+            ('MC_LogHelper.tla', 'SIM_LogHelper_est.cfg', n[1], 60), ('MC_LogHelper.tla', 'SIM_LogHelper_est_nl.cfg', n[1], 80)]
+    res = common.pmap(_simulate, [(s, c, k, d, (seed + i) % 100000) for i, (s, c, k, d) in enumerate(sims)], nproc=6)
+    return [(sims[i][1], res[i][0], res[i][1]) for i in range(len(sims))]
+
+
+def _main(tier, seed, replay=None):
+    import time
+    out = common.Outcome(PROP, tier, seed)
+    rng = random.Random(seed)
+    out.assumptions = ASSUMPTIONS + ASSUMPTIONS_B
+    whatif = os.environ.get('VERIF_X02_WHATIF') == 'fix'
+    pf_cfg = 'TRACE_ParamFile_wake.cfg' if whatif else 'TRACE_ParamFile.cfg'
+    laps = []
+    t_last = [time.time()]
+
+    def lap(label):
+        laps.append((label, round(time.time() - t_last[0], 1)))
+        t_last[0] = time.time()
+
+    if replay:
+        rp = json.load(open(replay))['replay']
+        _init()
+        if rp.get('family') == 'loghelper':
+            t = execute_b({'sc': rp['scenario']})
+            bad, _ = judge_b(out, [t], 'replay')
+            report_b(out, bad)
+        else:
+            t = execute({'sc': rp['scenario'], 'whatif': whatif})
+            bad, _ = judge_pf(out, [t], 'replay', cfg=pf_cfg)
+            report_pf(out, bad)
+        return out.finish()
+
+    # 1. design specs: exhaustive configurations + bug configurations (in the background)
+    design = _Bg(_design_checks, tier)
+
+    # 2. spec -> code
+    sims = _spec_to_code(tier, seed, whatif)
+    lap('simulate')
+    pf_behs = [b for (cfg, _r, behs) in sims if 'ParamFile' in cfg for b in behs]
+    lh_behs = [b for (cfg, _r, behs) in sims if 'LogHelper' in cfg for b in behs]
+    for (cfg, r, behs) in sims:
+        out.states += r['states']
+        out.transitions += r['transitions']
+        out.tlc_runs.append(dict(r, config='%s (-simulate, %d behaviours)' % (cfg, len(behs))))
+    rep_a = [r for r in common.pmap(_replay_job, [(b, whatif) for b in pf_behs], init=_init, maxtasks=200) if r is not None]
+    rep_b = [r for r in common.pmap(_replay_job_b, lh_behs, init=_init, maxtasks=200) if r is not None]
+    lap('replay')
+    s2c = {}
+    for fam, rep in (('paramfile', rep_a), ('loghelper', rep_b)):
+        unreal = sum(1 for (_t, _s, _m, first) in rep if first and first.get('unrealisable'))
+        mism = [first for (_t, _s, _m, first) in rep if first and not first.get('unrealisable')]
+        s2c[fam] = {'behaviours': len(rep), 'steps': sum(s for (_t, s, _m, _f) in rep), 'steps_matched': sum(m for (_t, _s, m, _f) in rep),
+                    'behaviours_fully_matched': sum(1 for (_t, s, m, f) in rep if s == m),
+                    'cut_short_unrealisable_timing': unreal, 'first_mismatches': mism[:3]}
+    out.conformance['spec_to_code'] = s2c
+
+    # 3. code -> spec
+    scs_a = sc_enumerated(tier) + sc_random(tier, rng, 400 if tier == 'quick' else 6000)
+    tr_a = run_scenarios(scs_a, whatif=whatif)
+    lap('execute A (%d)' % len(scs_a))
+    scs_b = sc_ranger(tier, rng) + sc_estimator(tier, rng)
+    tr_b = run_scenarios_b(scs_b)
+    lap('execute B (%d)' % len(scs_b))
+    all_a = [t for (t, _s, _m, _f) in rep_a] + tr_a
+    all_b = [t for (t, _s, _m, _f) in rep_b] + tr_b
+    bad_a, drift_a = judge_pf(out, all_a, 'real code', cfg=pf_cfg)
+    lap('judge A')
+    bad_b, drift_b = judge_b(out, all_b, 'real code')
+    lap('judge B')
+    out.conformance['code_to_spec'] = {
+        'paramfile': {'traces': len(all_a), 'rejected_by_monitor': len(bad_a), 'explained_by_design_spec': len(all_a) - len(bad_a) - len(drift_a),
+                      'drift': len(drift_a), 'drift_samples': [_view(t) for t in drift_a[:2]]},
+        'loghelper': {'traces': len(all_b), 'rejected_by_monitor': len(bad_b), 'explained_by_design_spec': len(all_b) - len(bad_b) - len(drift_b),
+                      'drift': len(drift_b), 'drift_samples': [_view_b(t) for t in drift_b[:2]]}}
+    report_pf(out, bad_a)
+    report_b(out, bad_b)
+    out.evaluations = len(all_a) + len(all_b)
+    out.distinct = len({json.dumps(t['sc'], sort_keys=True, default=str) for t in all_a + all_b})
+    out.extra['events_judged'] = sum(len(t['ev']) for t in all_a + all_b)
+    out.extra['data_packets_judged'] = sum(1 for t in all_b for e in t['ev'] if e['e'] == 'data')
+    out.extra['blocked_at_end'] = {'paramfile': sum(1 for t in all_a if t['blocked']), 'loghelper': sum(1 for t in all_b if t['blocked'])}
+    out.rule = ('family A: scenario = (device table: nature + store status per parameter, link kind, files of 1-2 calls, schedule/fault '
+                'script); sources: TLC -simulate behaviours of ParamFile replayed step by step, exhaustive product (16 tables x 31 files x '
+                'faults: drop/dup of reply j, link error / close_link after j events) under the canonical schedule, seeded random schedules. '
+                'family B: scenario = (helper, script of operations, rate, sample vectors, schedule, link loss position); sources: TLC '
+                '-simulate behaviours of LogHelper, scripted scenarios, uint16 value sweep through all six directions, seeded random. '
+                'distinct = distinct scenarios')
+    out.exhaustive = False
+    ok_a = next((t for t in tr_a if t['ev'] and t['ev'][-1]['e'] == 'ret' and t['ev'][-1]['res'] == 'true' and len(t['ev']) > 12), None)
+    hang = next((t for (t, _c, _a) in bad_a), None)
+    out.samples = [x for x in [
+        {'paramfile_ok': _view(ok_a)} if ok_a else None,
+        {'paramfile_rejected': _view(hang)} if hang else None,
+        {'ranger': _view_b(next(t for t in tr_b if t['mode'] == 'ranger' and len(t['ev']) < 30))},
+        {'estimator': _view_b(next(t for t in tr_b if t['mode'] == 'estimator' and t['ev'][-1]['e'] == 'end'))}] if x]
+
+    # 4. sensitivity: in-memory mutants, corrupted traces
+    k = 16 if tier == 'quick' else 60
+    sub_a = [sc for sc in scs_a if sc['driver'][0] == 'canon' and not sc['driver'][1] and len(sc['calls'][0]) == 2][:k] + \
+            [sc for sc in scs_a if sc['driver'][0] == 'canon' and sc['driver'][1] and sc['driver'][1][0] == 'drop'][:k] + \
+            [sc for sc in scs_a if sc['driver'][0] == 'random' and not sc.get('down')][:k]
+    jobs = [{'sc': sc, 'mutant': name, 'whatif': False} for name in sorted(MUTANTS) for sc in sub_a]
+    tagged = common.pmap(execute, jobs, init=_init, maxtasks=200)
+    for j, t in zip(jobs, tagged):
+        t['mutant'] = j['mutant']
+    lap('mutants A')
+    mbad, mdrift = judge_pf(common.Outcome(PROP, 'bg', 0), tagged, 'mutants', count=False)
+    for name in sorted(MUTANTS):
+        n = sum(1 for t in tagged if t['mutant'] == name)
+        rej = [c for (t, c, _a) in mbad if t['mutant'] == name]
+        own = [c for c in rej if not c.startswith('HangAfterDisconnect')]
+        out.sensitivity['mutant:paramfile:' + name] = '%d of %d traces rejected (%s)' % (
+            len(own), n, ', '.join(sorted(set(own))[:4]) or '-')
+        if not own:
+            raise common.MachineryError('monitor did not reject in-memory mutant %s of ParamFileHelper' % name)
+    sub_b_r = [sc for sc in scs_b if sc['mode'] == 'ranger' and sc['driver'][0] == 'canon' and not sc['driver'][1] and len(sc['data']) < 20]
+    est_c = [sc for sc in scs_b if sc['mode'] == 'estimator' and sc['driver'][0] == 'canon']
+    sub_b_e = [sc for sc in est_c if not sc['down']] + [sc for sc in est_c if sc['down']][::(6 if tier == 'quick' else 2)]
+    jobs = [{'sc': sc, 'mutant': name} for name in sorted(MUTANTS_B) for sc in (sub_b_r if name.startswith('r_') else sub_b_e)]
+    res = common.pmap(execute_b, jobs, init=_init, maxtasks=200)
+    tagged = []
+    skipped = []
+    for j, t in zip(jobs, res):
+        if 'skipped' in t:
+            if j['mutant'] not in skipped:
+                skipped.append(j['mutant'])
+                out.sensitivity['mutant:loghelper:' + j['mutant']] = 'skipped (%s)' % t['skipped']
+            continue
+        t['mutant'] = j['mutant']
+        tagged.append(t)
+    lap('mutants B')
+    mbad, _ = judge_b(common.Outcome(PROP, 'bg', 0), tagged, 'mutants', count=False)
+    for name in sorted(MUTANTS_B):
+        if name in skipped:
+            continue
+        n = sum(1 for t in tagged if t['mutant'] == name)
+        rej = [c for (t, c, _a) in mbad if t['mutant'] == name]
+        out.sensitivity['mutant:loghelper:' + name] = '%d of %d traces rejected (%s)' % (len(rej), n, ', '.join(sorted(set(rej))[:4]) or '-')
+        if not rej:
+            raise common.MachineryError('monitor did not reject in-memory mutant %s' % name)
+    lap('judge mutants')
+    cor = corrupted_pf([t for t in tr_a if not t['blocked']])
+    cbad, cdrift = judge_pf(common.Outcome(PROP, 'bg', 0), [t for (_l, t, _w) in cor], 'corrupted', count=False)
+    for (label, t, want) in cor:
+        rej_m = any(x is t for (x, _c, _a) in cbad)
+        rej_c = rej_m or any(x is t for x in cdrift)
+        okk = rej_m if want == 'monitor' else rej_c
+        out.sensitivity['binding:paramfile:' + label] = ('rejected by the monitor (%s)' % t['verdict'][0]) if rej_m else \
+            'rejected by conformance' if rej_c else 'ACCEPTED'
+        if not okk:
+            raise common.MachineryError('trace spec accepted a corrupted trace: %s' % label)
+    cor = corrupted_b(tr_b)
+    cbad, cdrift = judge_b(common.Outcome(PROP, 'bg', 0), [t for (_l, t, _w) in cor], 'corrupted', count=False)
+    for (label, t, want) in cor:
+        rej_m = any(x is t for (x, _c, _a) in cbad)
+        rej_c = rej_m or any(x is t for x in cdrift)
+        okk = rej_m if want == 'monitor' else rej_c
+        out.sensitivity['binding:loghelper:' + label] = ('rejected by the monitor (%s)' % t['verdict'][0]) if rej_m else \
+            'rejected by conformance' if rej_c else 'ACCEPTED'
+        if not okk:
+            raise common.MachineryError('trace spec accepted a corrupted trace: %s' % label)
+    lap('corrupted')
+
+    # 1 (continued): collect the design checks
+    for (kind, cfg, summ, violated, cov, err) in design.get():
+        if err:
+            raise tlc.TLCError(err)
+        if kind == 'check':
+            r = tlc.Result()
+            r.distinct, r.generated, r.depth, r.wall_s, r.ok = summ['states'], summ['transitions'], summ['depth'], summ['wall_s'], True
+            r.coverage = {k: tuple(v) for k, v in (cov or {}).items()}
+            out.add_tlc(cfg, r)
+        else:
+            out.sensitivity['spec:' + cfg.replace('MC_', '').replace('.cfg', '')] = 'refuted (%s) after %d states' % (violated, summ['states'])
+    lap('design checks (waited)')
+    out.extra['laps_s'] = laps
+    return out.finish()
